@@ -37,17 +37,61 @@ def relations(rng, n_cases):
     return count, fails
 
 
+def aggregate_failures(rng, n_cases):
+    """qartod.aggregate(results) and PandasStore.compute_aggregate: the roll-up of ALL collected results, whatever
+    module (qartod / axds / argo) and stream they come from == qartod_compare of their flag vectors"""
+    from ioos_qc import qartod
+    from ioos_qc.results import CollectedResult
+    from ioos_qc.stores import PandasStore
+
+    fails, count = [], 0
+    pkgs = [("qartod", "gross_range_test"), ("qartod", "spike_test"), ("axds", "valid_range_test"),
+            ("argo", "speed_test"), ("argo", "pressure_increasing_test")]
+    for _ in range(n_cases):
+        k, n = rng.randint(1, 4), rng.randint(1, 7)
+        chosen = [rng.choice(pkgs) for _ in range(k)]
+        if rng.random() < 0.3:
+            chosen = [c for c in chosen if c[0] != "qartod"] or [("axds", "valid_range_test")]      # no qartod test at all
+        vs = [[rng.choice(fns.CELLS) for _ in range(n)] for _ in chosen]
+        crs = [CollectedResult(stream_id=f"s{i % 2}", package=p, test=t, function=None, results=fns._vec(v))
+               for i, ((p, t), v) in enumerate(zip(chosen, vs))]
+        want = core.canon_flags(qartod.qartod_compare([fns._vec(v) for v in vs]))
+        case = {"vs": vs, "packages": [list(c) for c in chosen]}
+        for label, f in (("aggregate", lambda: qartod.aggregate(crs)),
+                         ("PandasStore.compute_aggregate", lambda: _store_rollup(PandasStore, crs))):
+            count += 1
+            try:
+                got = core.canon_flags(f())
+            except Exception as e:  # noqa: BLE001
+                got = core.canon_exc(e)
+            if got != want:
+                fails.append({"kind": "predicate", "function": label, "case": case, "impl": got, "expected": want,
+                              "clause": f"{label} is not the roll-up (qartod_compare) of all the collected results"})
+    return count, fails
+
+
+def _store_rollup(PandasStore, crs):
+    st = PandasStore.__new__(PandasStore)
+    st.collected_results = list(crs)
+    st.compute_aggregate()
+    return st.collected_results[-1].results
+
+
 def run(ctx):
     rng, tier = ctx["rng"], ctx["tier"]
     r = adapters.run_adapter(fns.Compare(), fns.gen_compare(tier, rng), rng, with_spec=not ctx['props_ok'])
     cnt, fails = relations(rng, 200 if tier == "quick" else 3000)
     r["evaluations"] += cnt
     r["failures"] += fails
+    cnt, fails = aggregate_failures(rng, 150 if tier == "quick" else 2000)
+    r["evaluations"] += cnt
+    r["failures"] += fails
     return adapters.merge(
         [r],
         rule="all columns of k<=3 (thorough 4) vectors over {1,2,3,4,9,0,7,masked(data 4),masked(data 1)}; all pairs of "
              "length-2 vectors over a 6-symbol alphabet; random k<=6, n<=12; permutation/duplication/grouping relations "
-             "on the implementation. non-trivial = result has >=2 distinct flags or raises",
+             "on the implementation; aggregate() and PandasStore.compute_aggregate on CollectedResults of mixed modules "
+             "(qartod / axds / argo) and streams == qartod_compare of their vectors. non-trivial = result has >=2 distinct flags or raises",
     )
 
 
